@@ -4360,6 +4360,9 @@ class ParseCtx:
         if isinstance(self.ast, ActionSourceNode):
             self.start_actions, self.ast = self.ast.adopt_actions_from()
 
+        if self.ast is None:
+            raise IllegalParseTree("Parser never matches anything (it consists only of actions)", parser_decl)
+
     def _lookup_named_entity(self, context: Union[MacroArgumentKind, Iterable[MacroArgumentKind]], from_tree: lark.Token):
         assert from_tree.type == "IDENTIFIER"
         name = from_tree.value
